@@ -277,7 +277,7 @@ func removes(fib bool, st int) bool {
 
 func observe(c *client.Client, fib bool) (Obs, error) {
 	var o Obs
-	st, err := c.Status()
+	st, err := guardedStatus(c)
 	if err != nil {
 		return o, err
 	}
@@ -523,12 +523,12 @@ func (r *runner) runCase(cs Case) ([]Obs, string) {
 				if p.recvEntered.Load() >= want {
 					return true
 				}
-				st, _ := c.Status()
+				st, _ := guardedStatus(c)
 				return st != nil && len(st.ReadErrs) > 0
 			}) {
 				note(i, "HANG: the client did not absorb the response")
 			}
-			if st, _ := c.Status(); st != nil && len(st.ReadErrs) > 0 {
+			if st, _ := guardedStatus(c); st != nil && len(st.ReadErrs) > 0 {
 				recvAlive = false
 				if !drainDone() {
 					note(i, "HANG: Done() not signalled after the receiver failed")
@@ -557,7 +557,7 @@ func (r *runner) runCase(cs Case) ([]Obs, string) {
 				code = codes.Internal
 			}
 			h.end(status.Error(code, "scripted failure"))
-			if !waitFor(func() bool { st, _ := c.Status(); return st != nil && len(st.ReadErrs) > 0 }) {
+			if !waitFor(func() bool { st, _ := guardedStatus(c); return st != nil && len(st.ReadErrs) > 0 }) {
 				note(i, "HANG: receive error not recorded")
 			}
 			recvAlive, streamDead = false, true
